@@ -318,7 +318,7 @@ def check_handoff(ctx, W, roots):
         if not h.counts and not h.undecided:
             ctx.undecided(R1, inst, 'no path reaches the end of the function', tu.fn_loc(f))
             continue
-        if 0 in h.counts:
+        if 0 in h.counts and not h.undecided:
             bad = True
             ctx.violation(R1, inst, 'on some path the closure `%s` is not handed to the backend at all (hand-offs seen: %s): '
                           'the task never runs' % (f['params'][pidx]['name'], h.kinds() or 'none'), tu.fn_loc(f),
